@@ -40,6 +40,17 @@ impl ElfSectionsTag {
     /// Get an iterator over the ELF sections.
     #[must_use]
     pub const fn sections(&self) -> ElfSectionIter {
+        // All section headers must lie inside the tag. Otherwise, the MBI is
+        // corrupt and iterating would read out of bounds.
+        assert!(
+            self.number_of_sections as u64 * self.entry_size as u64 <= self.sections.len() as u64,
+            "section headers exceed the ELF sections tag. The MBI seems to be corrupt."
+        );
+        // The same holds for the section header of the string table.
+        assert!(
+            self.shndx < self.number_of_sections || self.shndx == 0,
+            "string table index exceeds the ELF sections tag. The MBI seems to be corrupt."
+        );
         let string_section_offset = (self.shndx * self.entry_size) as isize;
         let string_section_ptr =
             unsafe { self.sections.as_ptr().offset(string_section_offset) as *const _ };
